@@ -477,6 +477,10 @@ def unit(arg):
         srcs = itertools.chain(lvsgen.schemas('quick'), c12.schemas('quick'))
         if arg.get('families'):
             srcs = list(lvsgen.families()) + list(c12.family_schemas())
+            # models with more than 256 and more than 65536 / 255 nodes (node ids in two bytes)
+            for width, depth in ((60, 5), (130, 3)):
+                srcs.append([{'id': f'#w{i}', 'name': [['lit', f'w{i}']] + [['lit', 'abcde'[j]] for j in range(depth - 1)] + [['pat', 'x']],
+                              'cons': [], 'sign': ([] if i == 0 else [f'#w{i - 1}'])} for i in range(width)])
         for i, s in enumerate(srcs):
             if not arg.get('families') and (i % 16 != arg['lo'] or i % (3 if arg['tier'] == 'thorough' else 12) != arg['lo'] % 3):
                 continue
